@@ -29,7 +29,7 @@ class Log:
 
     @property
     def heads(self):
-        return sorted({i.head for i in self.iterations})
+        return sorted({i.head for i in self.iterations}, key=str)
 
 
 def run(ctx, cfg, fnpath, uninterpreted=None, inline=(), **kw):
@@ -52,7 +52,9 @@ def run(ctx, cfg, fnpath, uninterpreted=None, inline=(), **kw):
         if p != fnpath and (p.startswith('#') or p.split('::{closure')[0] in X.KNOWN_FNS) and not any(p.endswith(k) for k in inline):
             continue      # loops of callees of the reference tree are theirs; a helper extracted later is part of this function
         start = bst.ghost.get(('iter-start', len(bst.frames), head), 0)
-        its.append(Iteration(head, bst, bst.calls[start:], cur, bmap, valid))
+        # loops of an inlined helper are told apart from the function's own by their owner (block numbers may coincide)
+        hid = head if p == fnpath else '%s#bb%d' % (p.rsplit('::', 1)[-1], head)
+        its.append(Iteration(hid, bst, bst.calls[start:], cur, bmap, valid))
     log = Log(ip, fn, outs, its)
     log.entries = [(h[1], h[5]) for h in ip.head_states if h[0] == fnpath or not (h[0].startswith('#') or h[0].split('::{closure')[0] in X.KNOWN_FNS)]
     return log
